@@ -24,7 +24,8 @@ def run(ctx):
     def one(i):
         cp, tp = os.path.join(d, "cases.%d" % i), os.path.join(d, "trace.%d" % i)
         vlib.write_ndjson(cp, parts[i])
-        p = vlib.run_harness(ctx.harness, ["isolation", "-cases", cp, "-out", tp, "-seed", str(ctx.seed), "-repo", vlib.REPO], timeout=2400)
+        # every second harness process runs with one P and the collector off (deterministic sync.Pool hand-over)
+        p = vlib.run_harness(ctx.harness, ["isolation", "-cases", cp, "-out", tp, "-seed", str(ctx.seed), "-repo", vlib.REPO] + (["-x", "p1=1"] if i % 2 == 1 else []), timeout=2400)
         ls = vlib.read_ndjson(tp) if os.path.exists(tp) else []
         if p.returncode != 0:
             if "panic" in p.stderr or "fatal error" in p.stderr:
